@@ -199,11 +199,11 @@ let run_case (line : string) : string =
   | "simc" :: rest ->
     let cfg, pairs, steps = parse_simc rest in
     (match model_run cfg steps with
-     | Ok obs -> fmt_run pairs steps obs
+     | Ok obs -> "SIM " ^ fmt_run pairs steps obs
      | Err -> "ERR" | Panic -> "PANIC" | OutOfFuel -> "HANG")
   | "resp" :: rest ->
     let svcs, queries = parse_resp rest in
-    String.concat " # " (List.map (fun (qs, kas) -> fmt_resp (resp_predict svcs qs kas)) queries)
+    "RSP " ^ String.concat " # " (List.map (fun (qs, kas) -> fmt_resp (resp_predict svcs qs kas)) queries)
   | _ -> "BADCASE"
 
 (* ---- monitors ---- *)
@@ -234,7 +234,10 @@ let first_diff (a : string list) (b : string list) : string =
     | x :: a', y :: b' -> if x = y then go a' b' else "observed " ^ x ^ " prescribed " ^ y in
   let s = go a b in if String.length s > 300 then String.sub s 0 300 else s
 
+let strip_prefix (pre : string) (s : string) : string =
+  if starts_with s pre then String.sub s (String.length pre) (String.length s - String.length pre) else s
 let mon_sim (which : string) (case : string list) (result : string) : string =
+  let result = strip_prefix "SIM " result in
   let cfg, pairs, steps = parse_simc case in
   match spec_run cfg steps with
   | Ok obs ->
@@ -294,7 +297,7 @@ let mon_c10 (case : string list) (result : string) : string =
   | "simc" :: rest -> mon_sim "C10" rest result
   | "resp" :: rest ->
     let svcs, queries = parse_resp rest in
-    let obs = split_str " # " result in
+    let obs = split_str " # " (strip_prefix "RSP " result) in
     if List.length obs <> List.length queries then "BAD result length"
     else begin
       let verdicts = List.map2 (fun (qs, kas) o ->
